@@ -68,6 +68,7 @@ func TestVerifC10_Blocks(t *testing.T) {
 		ca := vgfGenCfg(t, "A", []string{vgfSet, vgfSet, vgfMutex, vgfBool, vgfBSI}, caches, sizes)
 		cb := vgfGenCfg(t, "B", []string{ca.Kind}, caches, sizes)
 		cb.Shard = ca.Shard
+		cb.FileLimit = ca.FileLimit // process-global setting
 		dir := vgfTempDir(t)
 		defer os.RemoveAll(dir)
 		a := vgfNew(t, ca, dir, "a")
